@@ -469,6 +469,8 @@ bool DataTable::hasRow(const string& rowName) const
 
 void DataTable::deleteRow(size_t index)
 {
+  if (index >= nRow_)
+    throw IndexOutOfBoundsException("DataTable::deleteRow(size_t).", index, 0, nRow_ - 1);
   for (size_t j = 0; j < nCol_; j++)
   {
     vector<string>* column = &data_[j];
